@@ -24,7 +24,7 @@ try:
         print(name, 'new helpers', sorted(newh), 'gone', sorted(goneh))
         for q, (f, _, cls_) in cur.items():
             if q in reff and gate._dump(f) != gate._dump(reff[q][0]):
-                c1, c2 = gate.canonical_pair(f, cls_, reff[q][0], reff[q][2], newh, goneh, equiv.module_constants(ct), equiv.module_constants(rt), equiv.module_properties(ct), equiv.module_properties(rt))
+                c1, c2 = gate.canonical_pair(f, cls_, reff[q][0], reff[q][2], newh, goneh, equiv.module_constants(ct), equiv.module_constants(rt), equiv.module_properties(ct), equiv.module_properties(rt), ct, rt)
                 print('  ', q, 'EQUIVALENT' if c1 is not None and c1 == c2 else 'differs')
                 if c1 != c2 and c1 and c2:
                     a = re.split(r"(?<=\)), ", c1); b = re.split(r"(?<=\)), ", c2)
